@@ -412,8 +412,14 @@ func (d *dataPlane) SetKey(key []byte) error {
 }
 
 func (d *dataPlane) SetPortRange(start, end uint16) {
+	d.mtx.Lock()
+	defer d.mtx.Unlock()
 	d.dispatchedPortStart = start
 	d.dispatchedPortEnd = end
+	// The underlay providers translate SCION ports to underlay ports on local delivery.
+	for _, u := range d.underlays {
+		u.SetDispatchPorts(start, end, topology.EndhostPort)
+	}
 }
 
 // AddInternalInterface sets the interface the data-plane will use to send/receive traffic in the
